@@ -408,6 +408,8 @@ def judge(res, case, r, mod):
 
 
 def run_batch(ctx, cases, use_model=True, procs=1):
+    if os.environ.get('VERIF_PROCS'):      # e.g. VERIF_PROCS=1 for coverage measurements (everything in-process)
+        procs = int(os.environ['VERIF_PROCS'])
     res = core.Result()
     import tenpy.tools.cache  # noqa: F401  (import once, before forking)
     if procs > 1:
@@ -468,6 +470,8 @@ def _enum_worker(args):
 
 
 def systematic(ctx, programs, max_preempt, limit, procs=1, seconds=None):
+    if os.environ.get('VERIF_PROCS'):      # e.g. VERIF_PROCS=1 for coverage measurements (everything in-process)
+        procs = int(os.environ['VERIF_PROCS'])
     res = core.Result()
     deadline = None if seconds is None else time.time() + seconds
     jobs = [(dict(part='threaded', ops=ops, maxsize=ms, fail_at=fa), max_preempt, limit, deadline)
@@ -532,6 +536,8 @@ def _stress_one(args):
 
 
 def stress(ctx, n, maxlen, procs=4):
+    if os.environ.get('VERIF_PROCS'):      # e.g. VERIF_PROCS=1 for coverage measurements (everything in-process)
+        procs = int(os.environ['VERIF_PROCS'])
     res = core.Result()
     rng = ctx.sub_rng('threaded-stress')
     jobs = []
